@@ -1,5 +1,154 @@
+import Anything.Lemmas.Mul
 import Anything.Model.Eval
-import Anything.Spec.Quantity
+import Anything.Props.C02
+/-!
+# C03 — unit conversion preserves the physical quantity
+
+`Compound::factor self other v` converts the magnitude `v` from the unit `other` to
+the unit `self`. For proportional units it multiplies by `scale other / scale self`
+where `scale = ∏ (10^prefix · factor)^power` is the specification's exact scale over
+the extracted table — for **every** rational magnitude and **every** pair of
+commensurable compounds. Everything the property lists is a corollary.
+-/
+
 namespace Anything.Props.C03
-theorem C03_placeholder : True := trivial
+open Anything Anything.Spec Anything.Props.C02
+
+/-- `x` expressed in unit `src` is converted to unit `dst`. -/
+abbrev convert (dst src : Compound) (x : Rat) := Compound.factor dst src x
+
+/-- Table fact behind `scale_ne_zero`: every factor of the extracted unit table is a
+non-zero fraction (re-checked by the kernel whenever the table changes). -/
+theorem C03_table_factors_ne_zero : Generated.units.all (fun d => convOk d.conv) = true :=
+  table_factors_ne_zero
+
+/-- The scale of any compound is a non-zero rational. -/
+theorem C03_scale_ne_zero (c : Compound) : scaleC c ≠ 0 := scale_ne_zero c
+
+/-- **C03 (value of a conversion).** -/
+theorem C03_convert_value (dst src : Compound) (hd : dst ≠ []) (hs : src ≠ [])
+    (pd : Proportional dst) (ps : Proportional src) (h : Commensurable dst src) (x : Rat) :
+    convert dst src x = .ok (some (x * scaleC src / scaleC dst)) := by
+  unfold convert
+  rw [factor_prop dst src hd hs pd ps]
+  unfold Commensurable at h
+  simp [h]
+
+/-- The scale is the specification's scale of the unit expression. -/
+theorem C03_scale_is_spec (c : Compound) : scaleC c = SI.scale (semOf c) := (scale_semOf c).symm
+
+/-- **C03 (there and back).** Converting and converting back returns the original
+number exactly. -/
+theorem C03_round_trip (a b : Compound) (ha : a ≠ []) (hb : b ≠ [])
+    (pa : Proportional a) (pb : Proportional b) (h : Commensurable a b) (x : Rat) :
+    ∃ y, convert a b x = .ok (some y) ∧ convert b a y = .ok (some x) := by
+  refine ⟨_, C03_convert_value a b ha hb pa pb h x, ?_⟩
+  rw [C03_convert_value b a hb ha pb pa h.symm]
+  have h1 := scale_ne_zero a
+  have h2 := scale_ne_zero b
+  congr 2
+  field_simp
+
+/-- **C03 (via an intermediate unit).** `src → mid → dst` equals `src → dst`. -/
+theorem C03_via_intermediate (dst mid src : Compound) (hd : dst ≠ []) (hm : mid ≠ []) (hs : src ≠ [])
+    (pd : Proportional dst) (pm : Proportional mid) (ps : Proportional src)
+    (h1 : Commensurable mid src) (h2 : Commensurable dst mid) (x : Rat) :
+    ∃ y, convert mid src x = .ok (some y) ∧ convert dst mid y = convert dst src x := by
+  refine ⟨_, C03_convert_value mid src hm hs pm ps h1 x, ?_⟩
+  have h3 : Commensurable dst src := h2.trans h1
+  rw [C03_convert_value dst mid hd hm pd pm h2, C03_convert_value dst src hd hs pd ps h3]
+  have := scale_ne_zero mid
+  congr 2
+  field_simp
+
+/-- **C03 (scaling the input scales the output).** -/
+theorem C03_linear (dst src : Compound) (hd : dst ≠ []) (hs : src ≠ [])
+    (pd : Proportional dst) (ps : Proportional src) (h : Commensurable dst src) (k x : Rat) :
+    ∃ y, convert dst src x = .ok (some y) ∧ convert dst src (k * x) = .ok (some (k * y)) := by
+  refine ⟨_, C03_convert_value dst src hd hs pd ps h x, ?_⟩
+  rw [C03_convert_value dst src hd hs pd ps h]
+  congr 2
+  ring
+
+/-- **C03 (a prefix is exactly its power of ten).** Scale of `prefix·u` (power one)
+is `10^prefix` times the scale of `u`, for every unit and every integer exponent the
+prefix table may hold. -/
+theorem C03_prefix_scale (u : UnitKey) (p : Int) :
+    scaleC [(u, { power := 1, pfx := p })] = (10 : Rat) ^ p * scaleC [(u, { power := 1, pfx := 0 })] := by
+  simp [scaleC, term]
+
+theorem C03_prefix_convert (u : UnitKey) (hu : isProp u = true) (p : Int) (x : Rat) :
+    convert [(u, { power := 1, pfx := 0 })] [(u, { power := 1, pfx := p })] x = .ok (some (x * (10 : Rat) ^ p)) := by
+  have pa : Proportional [(u, ({ power := 1, pfx := 0 } : State))] := by
+    intro e he; simp at he; subst he; exact hu
+  have pb : Proportional [(u, ({ power := 1, pfx := p } : State))] := by
+    intro e he; simp at he; subst he; exact hu
+  have hc : Commensurable [(u, ({ power := 1, pfx := 0 } : State))] [(u, { power := 1, pfx := p })] := by
+    unfold Commensurable SI.dims semOf; simp
+  rw [C03_convert_value _ _ (by simp) (by simp) pa pb hc, C03_prefix_scale]
+  have := scale_ne_zero [(u, ({ power := 1, pfx := 0 } : State))]
+  congr 2
+  field_simp
+
+/-- **C03 (powers).** Raising every unit of a compound to the `n`-th power raises its
+scale to the `n`-th power. -/
+theorem C03_power_scale (c : Compound) (n : Int) :
+    scaleC (c.map (fun e => (e.1, { e.2 with power := e.2.power * n }))) = scaleC c ^ n := by
+  unfold scaleC
+  induction c with
+  | nil => simp
+  | cons e rest ih =>
+    simp only [List.map_cons, List.prod_cons] at ih ⊢
+    rw [ih, mul_zpow]
+    congr 1
+    simp only [term]
+    rw [zpow_mul]
+
+/-- **C03 (products).** The scale of a product of unit expressions is the product of
+their scales. -/
+theorem C03_product_scale (a b : Compound) : scaleC (a ++ b) = scaleC a * scaleC b := by
+  simp [scaleC]
+
+/-- **C03 (a product converts by the product of the individual factors).** -/
+theorem C03_product_convert (a a' b b' : Compound)
+    (ha : a ≠ []) (hb : b ≠ []) (ha' : a' ≠ []) (hb' : b' ≠ [])
+    (pa : Proportional a) (pb : Proportional b) (pa' : Proportional a') (pb' : Proportional b')
+    (h : Commensurable a b) (h' : Commensurable a' b') (x y : Rat) :
+    ∃ f f', convert a b x = .ok (some f) ∧ convert a' b' y = .ok (some f') ∧
+      convert (a ++ a') (b ++ b') (x * y) = .ok (some (f * f')) := by
+  refine ⟨_, _, C03_convert_value a b ha hb pa pb h x, C03_convert_value a' b' ha' hb' pa' pb' h' y, ?_⟩
+  have p1 : Proportional (a ++ a') := by
+    intro e he; rcases List.mem_append.mp he with he | he
+    · exact pa e he
+    · exact pa' e he
+  have p2 : Proportional (b ++ b') := by
+    intro e he; rcases List.mem_append.mp he with he | he
+    · exact pb e he
+    · exact pb' e he
+  have hc : Commensurable (a ++ a') (b ++ b') := by
+    unfold Commensurable at *
+    rw [dims_semOf, dims_semOf, vecOf_inj] at *
+    intro bb
+    have e1 := h bb
+    have e2 := h' bb
+    simp only [dimsFn, List.map_append, List.sum_append] at *
+    omega
+  rw [C03_convert_value _ _ (by simp [ha]) (by simp [hb]) p1 p2 hc, C03_product_scale, C03_product_scale]
+  have := scale_ne_zero a
+  have := scale_ne_zero a'
+  congr 2
+  field_simp
+
+/-! ### Non-vacuity -/
+
+def km : Compound := [(.base .Meter, { power := 1, pfx := 3 })]
+def mile : Compound := [(.derived 3553165315, { power := 1, pfx := 0 })]
+
+/-- The hypotheses are satisfiable by non-trivial units, and the theorem gives the
+textbook value: 1 mi = 1.609344 km. -/
+example : Commensurable km mile := by decide +kernel
+example : scaleC mile / scaleC km = 1609344 / 1000000 := by
+  simp [scaleC, term, mile, km, lin, SI.linFactor, SI.scaleOf, SI.findUnit, Generated.units]
+  norm_num
+
 end Anything.Props.C03
